@@ -46,8 +46,7 @@ def setup_symbolic():
         mod = sys.modules.get(name)
         if mod is not None and getattr(mod, "np", None) is real_np:
             mod.np = symnp
-    numfmt.enable(True)
-    numfmt.STATE["light"] = True
+    numfmt.enable(False)  # switched on inside the legend scenarios only
 
 
 def setup_concrete():
@@ -69,7 +68,7 @@ class RecAxes:
         return self._rec("errorbar", x, y, xerr=xerr, yerr=yerr, **k)
 
     def plot(self, x, y, *a, **k):
-        return self._rec("plot", x, y, **k)
+        return [self._rec("plot", x, y, **k)]
 
     def fill_between(self, x, y1, y2=0, **k):
         return self._rec("fill_between", x, y1, y2, **k)
@@ -195,7 +194,13 @@ def sc_data_panels(cx, ftype, cost, srcs):
         ad.plot_model(ax)
         c = ([k for k in ax.calls if k[0] in ("errorbar", "plot")] or [None])[-1]
         cx.concrete(tag + ":model:drawn", c is not None)
-        if c is not None:
+        if c is not None and ftype == "indexed":
+            # one horizontal step per index: from i - 1/2 to i + 1/2 at the model value
+            X, Yv = c[1][0], c[1][1]
+            cx.eq(tag + ":model:step-left-ends", list(X[0]), [v - 0.5 for v in xs])
+            cx.eq(tag + ":model:step-right-ends", list(X[1]), [v + 0.5 for v in xs])
+            cx.eq(tag + ":model:step-heights==model-at-current-parameters", [list(Yv[0]), list(Yv[1])], [m, m])
+        elif c is not None:
             cx.eq(tag + ":model:y==model-at-current-parameters", list(c[1][1]), m)
             cx.eq(tag + ":model:x", list(c[1][0]), xs)
     # ---- residual / ratio / pull
@@ -214,6 +219,7 @@ def sc_data_panels(cx, ftype, cost, srcs):
     cx.eq(tag + ":ratio:y==data/model", list(c[1][1]), [data[i] / m[i] for i in range(n)])
     if c[2]["yerr"] is not None:
         cx.eq(tag + ":ratio:yerr^2==(uncertainty/model)^2", _sq(list(c[2]["yerr"])), [tot2[i] / (m[i] * m[i]) for i in range(n)])
+        cx.holds(tag + ":ratio:error-bars-are-lengths(>=0)", cx.And(*[v >= 0 for v in list(c[2]["yerr"])]))
     for v in tot2:
         cx.assume(v > 0)
     ax = RecAxes()
@@ -301,7 +307,18 @@ def sc_legend(cx, minimizer, fixed, latex):
     import kafe2.fit._base.plot  # noqa: F401
     import kafe2.fit.xy.plot  # noqa: F401
 
-    numfmt.STATE["light"] = True
+    if cx.symbolic:
+        numfmt.enable(True)
+        numfmt.STATE["light"] = True
+    try:
+        _legend(cx, minimizer, fixed, latex)
+    finally:
+        numfmt.enable(False)
+
+
+def _legend(cx, minimizer, fixed, latex):
+    import sys
+
     pb = B.build(cx, "xy", minimizer, sources=[SRC["SA"]], rho=0, fixed=("b",) if fixed else (), n=3)
     pb.assume_pd()
     cx.assume(pb.x[0] != pb.x[1])
@@ -336,8 +353,7 @@ def sc_legend(cx, minimizer, fixed, latex):
         text_c = re.sub(r"(-?\d*\.?\d*)\\times10\^\{(-?\d*)\}", lambda m_: "%se%s" % (m_.group(1), m_.group(2) or "0"), text)
         lines = text_c.split("\n")
     for i, nm in enumerate(pb.par_names):
-        row = [ln for ln in lines if ln.strip().lstrip("$").startswith(nm) and ("=" in ln)]
-        row = [ln for ln in row if ln.strip().replace("$", "").replace("{", "").replace("}", "").startswith(nm + " =")]
+        row = [ln for ln in lines if ln.strip().replace("$", "").replace("{", "").replace("}", "").startswith(nm + " =")]
         cx.concrete(tag + ":parameter-%s-line" % nm, len(row) == 1, info=text[:500])
         if len(row) != 1:
             continue
@@ -492,8 +508,8 @@ def scenarios(tier, seed):
     for minimizer in ("scipy", "iminuit"):
         for fixed in ((), ("a",), ("b",)):
             for srcs in (["SA"], ["SA", "SAx"]):
-                if q and (srcs != ["SA"] and (fixed or minimizer == "iminuit")):
-                    continue
+                if q and (srcs != ["SA"] and (fixed or minimizer == "iminuit" or minimizer == "scipy")):
+                    continue  # x errors: two-pass fit with slow feasibility queries -> thorough tier
                 S.append(Scenario("line-band/%s/fixed-%s/%s" % (minimizer, "+".join(fixed) or "none", "+".join(srcs)), sc_xy_line_band, family="line-band/" + minimizer, params=dict(minimizer=minimizer, fixed=fixed, srcs=srcs)))
         for fixed in (False, True):
             for latex in (True, False):
